@@ -20,12 +20,20 @@ RULE = ('real compute_features_2d(axis=0) / BycycleGroup.fit on 1-7 pairwise dif
         'insertion order; through the object, about 60 % of the cases (and a dedicated block) first fit the SAME '
         'BycycleGroup on 1-2 decoy arrays of another shape (more / fewer rows, 3-D arrays along any axis) with other '
         'signals, and after the judged fit len(bg), bg.models, bg[i], iteration and df_features must have exactly the '
-        'judged array\'s rows, every model holding the table (by value) and the signal of its own row; the history is '
-        'evaluated by the model of the object (second Coq stream); '
+        'judged array\'s rows, every model holding the table (by value) and the signal of its own row; in about two '
+        'thirds of these histories the user RE-ASSIGNS settings attributes of the object between the fits (and sometimes '
+        'before the first one): center_extrema, burst_method together with thresholds, thresholds = a new dict, '
+        'burst_kwargs, find_extrema_kwargs, return_samples - all of them or a subset, values taken from another option '
+        'set of the pool; the candidates then hold the tables of every row under EVERY option set the object held '
+        'during the history, and position i must hold the table of row i under the settings in force when the judged '
+        'fit was called; the history (fits and assignments) is evaluated by the model of the object (second Coq stream); '
         'non-trivial = >= 3 rows and a perturbed schedule or a per-row list')
 ASSUMPTIONS = ['the statement about BycycleGroup.fit is applied to every call of fit, also on an object that was fitted before on '
                'arrays of another shape (the property does not restrict it to fresh objects); position-wise access is read as '
                'bg.models, bg[i] (bg[i][j]), len(bg) and iteration, compared by value',
+               '"the options given for row i" of a BycycleGroup are the values its settings attributes hold when fit is called '
+               '(the constructor\'s, or what the user assigned to the attribute since); every assignment block leaves a valid '
+               'combination (a change of burst_method comes with matching thresholds)',
                'the multiprocessing runtime is exercised only under the injected schedules; the theorem covers all permutations '
                'of completion order for the reorder-buffer model of Pool.imap',
                'the progress wrapper is exercised with a stand-in tqdm (iterates the wrapped iterable unchanged, as tqdm does); '
@@ -52,9 +60,11 @@ def _case(rng, rows, kwmode, via=None, refit=False):
               for _ in range(n_entries)]
     if via == 'group':
         rs_key = [None] * n_entries
-    history = gl.gen_decoys(rng, (rows,)) if via == 'group' and (refit or rng.random() < 0.6) else []
+    shared = rng.randrange(len(gl.KW_POOL))
+    history = (gl.gen_history(rng, (rows,), kwmode, shared, return_samples, force=refit and rng.random() < 0.5)
+               if via == 'group' and kwmode != 'list' and (refit or rng.random() < 0.6) else [])
     return {'kind': 'g2d/' + kwmode, 'rows': rows, 'history': history, 'kseed': rng.randrange(10 ** 6), 'sig_ids': rng.sample(range(40), rows), 'kwmode': kwmode,
-            'kw': kw, 'shared': rng.randrange(len(gl.KW_POOL)), 'rs_key': rs_key,
+            'kw': kw, 'shared': shared, 'rs_key': rs_key,
             'omit_arg': kwmode == 'none' and rng.random() < 0.5,
             'n_jobs': rng.choice([1, 2, 3, 4, max(1, rows - 1), max(1, rows - 2), rows, rows + 3, -1]),
             'progress': rng.choice([None, None, 'tqdm', 'tqdm.notebook']),
@@ -74,7 +84,7 @@ def cases(rng, tier):
         for kwmode, via in (('none', 'func'), ('dict', 'func'), ('list', 'func'), ('dict', 'group'), ('none', 'group')):
             out.append(_case(rng, 1, kwmode, via))
     # one object fitted several times: decoy arrays of another shape first, then the judged array
-    for rep in range(8 if tier == 'quick' else 48):
+    for rep in range(16 if tier == 'quick' else 64):
         c = _case(rng, rng.choice([1, 3, 3, 4, 5, 6, 7]), 'dict' if rng.random() < 0.75 else 'none', 'group', refit=True)
         if c['schedule'] == 'none' and rep % 4:
             c['schedule'] = ['reverse', 'first_slow', 'zigzag'][rep % 3]
@@ -117,7 +127,8 @@ def run_impl(c):
                     bg = BycycleGroup(center_extrema=kw['center_extrema'], burst_method=kw.get('burst_method', 'cycles'),
                                       thresholds=gl.shuffled(krng, kw['threshold_kwargs']),
                                       find_extrema_kwargs=kw.get('find_extrema_kwargs'), return_samples=c['return_samples'])
-                gl.run_decoys(bg, c.get('history'))           # earlier fits of the SAME object on arrays of another shape
+                # earlier fits of the SAME object on arrays of another shape, re-assignments of its settings attributes
+                gl.run_history(bg, c.get('history'), krng)
             stub = gl.ProgressStub().install() if c['progress'] else None
             orig = gl.install_delays([s for s in sigs], c['schedule'])
             if c['via'] == 'group':
@@ -146,19 +157,31 @@ def run_impl(c):
     if err is not None:
         out.update(err)
         return out
-    if mode == 'list':
-        kws = [(a, a) for a in sorted(set(c['kw']))]
-    elif mode == 'dict':
-        kws = [(gl.SHARED_ID, c['shared'])]
-    else:
-        kws = [(gl.NONE_ID, None)]
     cands = {}
-    for aid, a in kws:
-        for b in range(len(sigs)):
-            kw = gl.option_set(a) if a is not None else {}
-            if c['via'] == 'group' and a is not None and 'find_extrema_kwargs' not in kw:
-                kw['find_extrema_kwargs'] = None
-            cands[(aid, b, 0)] = compute_features(sigs[b], gl.FS, gl.FR, return_samples=c['return_samples'], **kw)
+    if c['via'] == 'group':
+        # every option set the object held during its history (the constructor's first), every row
+        for vid, st in gl.versions(mode, c['shared'], c['return_samples'], c.get('history')):
+            for b in range(len(sigs)):
+                if vid is None and mode == 'none':
+                    cands[(gl.NONE_ID, b, 0)] = compute_features(sigs[b], gl.FS, gl.FR, return_samples=c['return_samples'])
+                elif vid is None:
+                    kw = gl.option_set(c['shared'])
+                    kw.setdefault('find_extrema_kwargs', None)
+                    cands[(gl.SHARED_ID, b, 0)] = compute_features(sigs[b], gl.FS, gl.FR, return_samples=c['return_samples'], **kw)
+                else:
+                    cands[(vid, b, 0)] = compute_features(sigs[b], gl.FS, gl.FR, return_samples=st['return_samples'],
+                                                          **gl.settings_kwargs(st))
+    else:
+        if mode == 'list':
+            kws = [(a, a) for a in sorted(set(c['kw']))]
+        elif mode == 'dict':
+            kws = [(gl.SHARED_ID, c['shared'])]
+        else:
+            kws = [(gl.NONE_ID, None)]
+        for aid, a in kws:
+            for b in range(len(sigs)):
+                kw = gl.option_set(a) if a is not None else {}
+                cands[(aid, b, 0)] = compute_features(sigs[b], gl.FS, gl.FR, return_samples=c['return_samples'], **kw)
     try:
         dfs = list(dfs)
     except TypeError:
@@ -178,6 +201,9 @@ def _want_id(c, i):
     mode = _mode(c)
     if mode == 'list' and c['via'] != 'group':
         return c['kw'][i] if i < len(c['kw']) else gl.MISSING
+    vid = gl.current_vid(c.get('history')) if c['via'] == 'group' else None
+    if vid is not None:
+        return vid                      # the option set assigned last
     return gl.NONE_ID if mode == 'none' else gl.SHARED_ID
 
 
@@ -189,13 +215,14 @@ def oracle(c, o):
     for i, t in enumerate(o['placement'][0]):
         want = [_want_id(c, i), i, 0]
         if t != want:
-            return 'position %d holds the analysis (options, row) = %s, expected %s%s' % (
-                i, t[:2], want[:2], ' [progress=%s]' % c['progress'] if c.get('progress') else '')
+            return 'position %d holds the analysis (options, row) = %s, expected %s%s%s' % (
+                i, t[:2], want[:2], ' [progress=%s]' % c['progress'] if c.get('progress') else '',
+                ' [BycycleGroup.fit%s; option ids: %d / %d = the constructor\'s, 1001.. = after the n-th assignment block]'
+                % (gl.history_note(c.get('history')), gl.SHARED_ID, gl.NONE_ID) if gl.n_reassign(c.get('history')) else '')
     if 'object' in o:
         p = gl.object_problem(o['object'], (c['rows'],), [[_want_id(c, i), i, 0] for i in range(c['rows'])])
         if p:
-            return 'BycycleGroup.fit%s: %s' % (' after %d earlier fit(s) of the same object on arrays of another shape'
-                                                % len(c['history']) if c.get('history') else '', p)
+            return 'BycycleGroup.fit%s: %s' % (gl.history_note(c.get('history')), p)
     return None
 
 
@@ -206,7 +233,8 @@ def nontrivial(c, o):
 def kind_of(c, o):
     jobs = 'gt' if c['n_jobs'] > c['rows'] else ('all' if c['n_jobs'] == -1 else c['n_jobs'])
     return 'g2d/%s/%s/jobs%s%s%s' % (_mode(c), c['schedule'], jobs, '/1row' if c['rows'] == 1 else '',
-                                     '/object-refit%d' % len(c['history']) if c.get('history') else
+                                     '/object-refit%d%s' % (gl.n_decoys(c['history']), '-reassign' if gl.n_reassign(c['history']) else '')
+                                     if c.get('history') else
                                      '/object' if c.get('via') == 'group' and _mode(c) != 'list' else '')
 
 
@@ -225,6 +253,7 @@ def coq_case(c, o):
     if stream_of(c) == 'object':
         if 'object' not in o:
             return None
-        hist = [gl.decoy_term(d) for d in c.get('history') or []] + [inp]
-        return gl.coqio.lst(hist), '(%s, %s)' % (gl.coq_triples(o['placement']), gl.coq_models(o['object']['models']))
+        k0 = gl.NONE_ID if mode == 'none' else gl.SHARED_ID
+        return (gl.history_term(k0, c.get('history'), inp),
+                '(%s, %s)' % (gl.coq_triples(o['placement']), gl.coq_models(o['object']['models'])))
     return inp, gl.coq_triples(o['placement'])
